@@ -527,6 +527,10 @@ FaultStep ==
                        THEN <<<<"C08", "io-error-not-counted", [kind |-> a.fkind, pos |-> p, io |-> Ev.out.io]>>>> ELSE <<>>) \o
                       (IF p >= 0 /\ Ev.out.io > 1 THEN <<<<"C08", "one-io-error-counted-several-times", [kind |-> a.fkind, pos |-> p, io |-> Ev.out.io]>>>> ELSE <<>>) \o
                       (IF others # {} THEN <<<<"C08", "io-error-changes-the-outcome-of-other-stripes", [kind |-> a.fkind, pos |-> p, others |-> others]>>>> ELSE <<>>) \o
+                      \* ... and no block may end recorded as synced with a hash that is not the hash of its data (of the function in use at
+                      \* its position): the hashes computed for a stripe that is then skipped must not reach the state
+                      (IF p >= 0 /\ C19_Wrong(C, fs) = {} /\ C19_Wrong(newc, Ev.state.fs) # {}
+                       THEN <<<<"C08", "io-error-leaves-a-synced-block-with-a-wrong-hash", C19_Wrong(newc, Ev.state.fs)>>>> ELSE <<>>) \o
                       (IF Ev.state.sha.f # sha.f THEN <<<<"C12", Ev.e \o "-changed-data", <<>>>>>> ELSE <<>>) \o
                       (IF Ev.e = "ScrubFault" /\ Ev.state.sha.p # sha.p THEN <<<<"C12", "ScrubFault-changed-parity", <<>>>>>> ELSE <<>>)
           /\ dmg' = (dmg \/ pw)
